@@ -32,15 +32,55 @@ def solve_and_judge(ctx, case, accept, skip_if_polarity_lost=True, solve_kw=None
         raise RuntimeError("generator produced a spec the public API rejects: %s" % H.exc_sig(sysobj))
     kw = dict(vtol=case["tol"], itol=case["tol"], ta=case.get("ta", 25.0))
     kw.update(solve_kw or {})
-    st, df = H.solve(sysobj, **kw)
+    kw.update(case.get("kw") or {})
+    phases = list((spec.get("phases") or {}).keys())
+    if kw.get("phase") == "<some>":
+        if phases:
+            kw["phase"] = phases[case.get("phase_pick", 0) % len(phases)]
+        else:
+            kw.pop("phase")
+    # earlier analyses on the SAME object (whatever they leave behind must not influence the judged call)
+    with H.quiet():
+        for pre in case.get("pre") or []:
+            if pre == "solve":
+                H.solve(sysobj)
+            elif pre == "solve_phase" and phases:
+                H.solve(sysobj, phase=phases[-1])
+            elif pre == "rail_rep":
+                H.call(sysobj.rail_rep)
+            elif pre == "params":
+                H.call(sysobj.params)
+            elif pre == "solve_loose":
+                H.solve(sysobj, vtol=1e-2, itol=1e-2, maxiter=3)
+            ctx.count("pre_calls", pre)
+        st, df = H.solve(sysobj, **kw)
+    for k_ in ("energy", "tags", "quiet", "phase"):
+        if k_ in kw:
+            ctx.count("solve_kw", k_)
     ctx.count("outcome", "returned" if st == "ok" else type(df).__name__)
     if st != "ok":
         return None, None, sysobj
     probe = H.Collect()
-    info, per, _ = M.check_table(probe, spec, df, tol, kw["ta"])
+    only = kw.get("phase") or None
+    info, per, _ = M.check_table(probe, spec, df, tol, kw["ta"], only_phase=only)
     if skip_if_polarity_lost and any(i.get("polarity_lost") for i in info.values()):
         ctx.count("outcome", "polarity_lost(skipped, C03)")
         return None, None, sysobj
     em = H.Emit(ctx, accept=accept)
-    M.check_table(em, spec, df, tol, kw["ta"])
+    M.check_table(em, spec, df, tol, kw["ta"], only_phase=only)
     return df, info, sysobj
+
+
+def random_call_context(rng):
+    """Random documented solve() arguments and earlier analysis calls on the same object."""
+    kw = {}
+    if rng.random() < 0.25:
+        kw["energy"] = True
+    if rng.random() < 0.2:
+        kw["tags"] = {"rev": "B", "n": 3}
+    if rng.random() < 0.15:
+        kw["quiet"] = False
+    if rng.random() < 0.2:
+        kw["phase"] = "<some>"
+    pre = [rng.choice(["solve", "solve_phase", "rail_rep", "params", "solve_loose"]) for _ in range(rng.choice([0, 0, 1, 2]))]
+    return {"kw": kw, "pre": pre, "phase_pick": rng.randrange(8)}
